@@ -58,7 +58,10 @@ inductive HookRes where
   | replace (r : Rec)
 deriving DecidableEq, Repr
 
-/-- A registered hook: identity, query, declared phases, and its three methods as arbitrary pure functions. -/
+/-- A registration (`RegisteredHook`, one entry of `c.hooks`): its own identity, its own query, and the `Hook` value
+    it was made with — the declared phases and the three methods as arbitrary pure functions, and `obj`, the identity
+    of that hook value. One and the same hook value may be registered any number of times (same `obj`, same methods,
+    different `id`, any queries): `RegisterHook` and `RegisteredHook.Cancel` never look at it. -/
 structure Hook where
   id : Nat
   q : Query
@@ -68,6 +71,8 @@ structure Hook where
   preGet : String → Option Nat
   postGet : Rec → HookRes
   prePut : Rec → HookRes
+  /-- identity of the hook value (`RegisteredHook.h`) -/
+  obj : Nat := 0
 
 inductive Phase where
   | preGet | postGet | prePut
@@ -139,7 +144,7 @@ def applyOpts (o : Opts) (r : Rec) : Rec :=
 
 /-- Storage kinds the harness runs: the in-memory hashmap (hands out its own record objects), bbolt (serialises),
     a harness-owned injected storage whose `Put` returns a normalised copy (like `config`'s), and the
-    runtime registry with one provider on the prefix `a/` (no `Delete`). -/
+    runtime registry with its value providers (no `Delete`; keys no provider is responsible for are unmanaged). -/
 inductive Kind where
   | hashmap | bbolt | inj | reg
 deriving DecidableEq, Repr
@@ -151,7 +156,39 @@ deriving DecidableEq, Repr
 
 def Cfg.aliasing (c : Cfg) : Bool := c.kind == .hashmap
 
-def managed (key : String) : Bool := key.startsWith "a/"
+/-- A value provider registered on a `runtime.Registry`: identity, the key or (ending in `/`) key prefix it was
+    registered for, and — ghost — whether the registry had already been injected as a database when `Register` made
+    this provider's push function. -/
+structure Prov where
+  id : Nat
+  key : String
+  injAtReg : Bool
+deriving DecidableEq, Repr
+
+/-- `isPrefixKey` of runtime/registry.go. -/
+def isPrefixKey (k : String) : Bool := k.endsWith "/"
+
+/-- `radix.Tree.LongestPrefix`: the registered entry with the longest key that is a prefix of `key`. -/
+def longestPrefix (provs : List Prov) (key : String) : Option Prov :=
+  provs.foldl (fun (best : Option Prov) (p : Prov) =>
+    if key.startsWith p.key && (match best with | none => true | some b => b.key.length < p.key.length) then some p else best) none
+
+/-- `Registry.getMatchingProvider`: the longest registered prefix of the key, if it is a prefix registration or
+    the key itself. -/
+def matchingProv (provs : List Prov) (key : String) : Option Prov :=
+  match longestPrefix provs key with
+  | none => none
+  | some p => if !isPrefixKey p.key && p.key != key then none else some p
+
+def managed (provs : List Prov) (key : String) : Bool := (matchingProv provs key).isSome
+
+/-- The two checks of `Registry.Register`: a provider on a prefix of (or on) the new key, or — for a new prefix — a
+    provider somewhere below it. -/
+def provTaken (provs : List Prov) (k : String) : Bool :=
+  (match longestPrefix provs k with
+   | some p => isPrefixKey p.key || p.key == k
+   | none => false) ||
+  (isPrefixKey k && provs.any (fun (p : Prov) => p.key.startsWith k))
 
 /-! ## State -/
 
@@ -183,10 +220,15 @@ structure St where
   hooks : List Hook := []
   /-- ghost: the records of all successful writes / pushed updates, in order -/
   writes : List Rec := []
+  /-- runtime registry: the registered value providers, in registration order -/
+  provs : List Prov := []
+  /-- does the controller exist? Always for the storages the database package opens itself; for a runtime registry:
+      `Registry.dbController != nil`, i.e. `InjectAsDatabase` has been called -/
+  injected : Bool := true
 
 def St.storeGet (st : St) (key : String) : Option Rec :=
   match st.cfg.kind with
-  | .reg => if managed key then sGet st.store key else none
+  | .reg => if managed st.provs key then sGet st.store key else none
   | _ => sGet st.store key
 
 /-! ## Notification -/
@@ -227,6 +269,10 @@ def notify (st : St) (r : Rec) : St :=
 inductive Err where
   | notfound | denied | readonly | notimpl | unmanaged | query
   | veto (code : Nat)
+  /-- `getController` of an injected database nobody has injected yet -/
+  | notinjected
+  /-- `runtime.ErrInjected`, `runtime.ErrKeyTaken` -/
+  | injected | taken
 deriving DecidableEq, Repr
 
 /-- Result of one operation: the hook calls it made (in order) and its result (`some r` for a successful Get). -/
@@ -246,11 +292,11 @@ def Cfg.putForm (c : Cfg) (r : Rec) : Rec :=
 
 /-- The storage part of `Controller.Put`: immediate delete (`storage.Delete`) or put / shadow delete
     (`storage.Put`). Returns the new storage content and the record that is handed to the subscribers. -/
-def storeWrite (cfg : Cfg) (store : Store) (r : Rec) : Except Err (Store × Rec) :=
+def storeWrite (cfg : Cfg) (provs : List Prov) (store : Store) (r : Rec) : Except Err (Store × Rec) :=
   if !cfg.shadow && r.md.deleted then
     -- immediate delete; the registry's storage wrapper has no Delete
     if cfg.kind == .reg then .error .notimpl else .ok (sErase store r.key, r)
-  else if cfg.kind == .reg && !managed r.key then .error .unmanaged
+  else if cfg.kind == .reg && !managed provs r.key then .error .unmanaged
   else .ok (sPut store (cfg.putForm r).key (cfg.putForm r), cfg.putForm r)
 
 /-- `Controller.Put` after the shutdown / read-only checks: pre-put hooks, storage, then `notifySubscribers` with
@@ -259,7 +305,7 @@ def ctrlPut (st : St) (r : Rec) : St × Out :=
   match runPrePut st.hooks r with
   | (cs, .error c) => (st, { calls := cs, res := .error (.veto c) })
   | (cs, .ok (r', _)) =>
-    match storeWrite st.cfg st.store r' with
+    match storeWrite st.cfg st.provs st.store r' with
     | .error e => (st, { calls := cs, res := .error e })
     | .ok (store', w) => (notify { st with store := store' } w, { calls := cs })
 
@@ -437,6 +483,60 @@ def run (st : St) : List Op → St × List Out
     (st2, o :: os)
 
 def St.init (cfg : Cfg) : St := { cfg := cfg }
+
+/-! ## The runtime registry in front of its database
+
+`runtime.Registry` is an object of its own: value providers are registered on it (`Register`, which hands out a push
+function per provider), it is injected as a database at most once (`InjectAsDatabase`, which makes the controller),
+and only from then on the database operations (`Op`) reach a controller. The order of these calls is the caller's. -/
+
+inductive ROp where
+  /-- an operation through the database package (interfaces, subscriptions, hooks) on the registry's database -/
+  | db (op : Op)
+  /-- `Registry.Register(key, provider)` -/
+  | register (id : Nat) (key : String)
+  /-- `Registry.InjectAsDatabase(name)` -/
+  | inject
+  /-- a call of the push function `Register` returned for provider `id` -/
+  | push (id : Nat) (r : Rec)
+
+/-- Which controller the push function of provider `p` pushes to, as `Register` builds that function (shape
+    regenerated from the source): `r.dbController` read when the function is called, or the value it had when the
+    provider was registered. `true` = there is a controller. -/
+def pushTarget (st : St) (p : Prov) : Bool :=
+  if PB.Gen.Subs.pushReadsControllerAtPush then st.injected else p.injAtReg
+
+def rstep (st : St) : ROp → St × Out
+  | .db op =>
+    if st.injected then step st op
+    else
+      -- `getController`: "database storage is not injected" — after the query check of `Subscribe` / `RegisterHook`
+      match op with
+      | .subscribe _ _ q => (st, { res := .error (if q.bad then .query else .notinjected) })
+      | .regHook h => (st, { res := .error (if h.q.bad then .query else .notinjected) })
+      | _ => (st, { res := .error .notinjected })
+  | .register id key =>
+    if provTaken st.provs key then (st, { res := .error .taken })
+    else ({ st with provs := st.provs ++ [⟨id, key, st.injected⟩] }, {})
+  | .inject =>
+    if st.injected then (st, { res := .error .injected }) else ({ st with injected := true }, {})
+  | .push id r =>
+    match st.provs.find? (·.id == id) with
+    | none => (st, { res := .error .notfound })
+    | some p =>
+      -- `if ctrl == nil { return }`, else `ctrl.PushUpdate(rec)`: whatever the record's key is — the provider's
+      -- prefix is not looked at
+      if pushTarget st p then (notify st r, {}) else (st, {})
+
+def rrun (st : St) : List ROp → St × List Out
+  | [] => (st, [])
+  | op :: ops =>
+    let (st1, o) := rstep st op
+    let (st2, os) := rrun st1 ops
+    (st2, o :: os)
+
+/-- A fresh registry (`runtime.NewRegistry()`): no providers, not injected. -/
+def St.initReg : St := { cfg := ⟨.reg, false⟩, injected := false }
 
 /-- All subscriptions ever made that are still known: the listed ones (active) and the cancelled ones. -/
 def St.allSubs (st : St) : List Sub := st.subs ++ st.closed.map (·.1)
